@@ -29,4 +29,11 @@ restate C01_vm_refines_sld_cut := vm_refines_sld_cut
 
 restate C01_vm_refines_sld_cut_canon := vm_refines_sld_cut_canon
 
+/- **C01_vm_refines_sld_call** (stage 3a): the same for `CallFrag` = `CutFrag` + `call(G)` as a goal of
+    clause bodies, of the query and — recursively — of the goals that are called (`G` any term;
+    what it is bound to at call time must be a variable (instantiation error on both sides) or again
+    a body of the fragment: that, and that the model's inner fuel suffices to dereference `G`, is
+    the side condition `CallsOK` on the VM's run).  A cut inside `call/1` is local. -/
+restate C01_vm_refines_sld_call := vm_refines_sld_call
+
 end PrologVerif.C01
